@@ -81,7 +81,7 @@ void bufferctrl::wait_ready()
           __CPROVER_loop_invariant(this->lock.held && WV_ST_OK(this->state) && WV_B_OK(wv_b))
           __CPROVER_loop_invariant(!WV_IO_OWNED(__CPROVER_loop_entry(this->state)) ==> (this->state == __CPROVER_loop_entry(this->state) && WV_B_SAME_AS_ENTRY))
           __CPROVER_loop_invariant(WV_IO_OWNED(__CPROVER_loop_entry(this->state)) ==>
-                                   ((this->state == READY ==> (wv_b->now == 0 && wv_b->total >= 1)) && (this->state == INV ==> wv_b->now == wv_b->total))))
+                                   ((this->state == READY ==> wv_b->now == 0) && (this->state == INV ==> wv_b->now == wv_b->total))))
     cv_ready.wait(locker);
   locker.unlock();
 }
